@@ -230,6 +230,17 @@ void TaskScheduler::StopThreads( bool bWait_ )
     }
 }
 
+void TaskScheduler::CompleteSubTask( ITaskSet* pTask_ )
+{
+    // read the flag first: once the count is released a waiter may destroy the task set
+    const bool deleteTask = pTask_->m_DeleteOnCompletion;
+    AtomicAdd( &pTask_->m_RunningCount, -1 );
+    if( deleteTask )
+    {
+        delete pTask_;
+    }
+}
+
 bool TaskScheduler::TryRunTask( uint32_t threadNum, uint32_t& hintPipeToCheck_io_ )
 {
     // Run any tasks for this thread
@@ -262,14 +273,14 @@ bool TaskScheduler::TryRunTask( uint32_t threadNum, uint32_t& hintPipeToCheck_io
             SubTaskSet taskToRun = SplitTask( subTask, subTask.pTask->m_RangeToRun );
             SplitAndAddTask( threadNum, subTask, subTask.pTask->m_RangeToRun );
             taskToRun.pTask->ExecuteRange( taskToRun.partition, threadNum );
-            AtomicAdd( &taskToRun.pTask->m_RunningCount, -1 );
+            CompleteSubTask( taskToRun.pTask );
         }
         else
         {
 
             // the task has already been divided up by AddTaskSetToPipe, so just run it
             subTask.pTask->ExecuteRange( subTask.partition, threadNum );
-            AtomicAdd( &subTask.pTask->m_RunningCount, -1 );
+            CompleteSubTask( subTask.pTask );
         }
     }
 
@@ -339,7 +350,7 @@ void TaskScheduler::SplitAndAddTask( uint32_t threadNum_, SubTaskSet subTask_, u
                 subTask_.partition.start = taskToAdd.partition.end;
             }
             taskToAdd.pTask->ExecuteRange( taskToAdd.partition, threadNum_ );
-            AtomicAdd( &subTask_.pTask->m_RunningCount, -1 );
+            CompleteSubTask( subTask_.pTask );
         }
         else
         {
